@@ -696,3 +696,292 @@ def sx_expr_level(ctx, rule, method, args=None, n=2, states=None):
                       f"got {got.text() if got else '-'}; expected {want.text()}", key=key)
             ctx.check(rule, fn, o.value is me, f"Expr.{method} returns the expression itself",
                       f"Expr.{method} returns {show(_freeze(o.value))[:200]} instead of the modified expression", key=key + " returns")
+
+
+# =====================================================================================
+# Concrete containers (sa.symex): the library is evaluated *through all container levels*
+# on a small concrete model of a sympy expression, entered only through public methods.
+#
+# A sympy content is a term: ``add`` / ``mul`` / ``pow`` over leaves and numbers.  A leaf is an
+# abstract record of a library class (a tensor built by evaluating the library's own
+# constructor, a delta) embedded by its unique name; the model keeps the table name -> record.
+# Container objects (Expr, Term, Obj, Polynom) are records created by evaluating the
+# library's ``__new__`` / ``__init__``; ``len()``, ``__getattr__`` delegation and ``type()``
+# follow the class definitions.  Nothing below names a private function of the library.
+# =====================================================================================
+
+import itertools as _it                                   # noqa: E402
+from ..symex import Ext, Func, Raised                     # noqa: E402
+
+_serial = _it.count(1)
+
+
+class Concrete:
+    """Concrete sympy model + evaluator for the container and tensor classes."""
+
+    MODULES = (EC, "sympy_objects")
+
+    def __init__(self, ctx, what, hooks=None, sort_fermions=None, **kw):
+        self.ctx, self.model = ctx, ctx.model
+        self.leaves = {}
+        self.symbols = {}
+        self.count = {}
+        hk = _arith_hooks()
+        hk["Add"] = lambda sx, a, kw_: self.add(*a) if not kw_ else NotImplemented
+        hk.update({"tensor_names": tensor_names_obj(ctx.model), "S": S_OBJ, "sympify": self._sympify, "Symbol": self._sympify,
+                   "Tuple": lambda sx, a, kw_: tuple(a) if not kw_ else NotImplemented, "super": self._super,
+                   "len": self._len, "type": self._type})
+        for base in ("object", "Expr", "Basic", "Function", "AtomicExpr"):      # allocation by an external base class
+            hk[f"{base}.__new__"] = self._alloc_hook
+        if sort_fermions is not None:
+            hk["_sort_anticommuting_fermions"] = sort_fermions
+        for mod in self.MODULES:
+            for q in ctx.model.module(mod).classes:
+                if "." not in q:
+                    hk[f"{mod}:{q}"] = (lambda sx, a, kw_, mod=mod, q=q: self.instantiate(ClassRef(ctx.model.module(mod), q), a, kw_))
+        hk.update(hooks or {})
+        self.sx = Symex(ctx.model, inline=lambda q: True, hooks=hk, what=what, attr_hook=self._attr,
+                        isinstance_hook=self._isinstance, **kw)
+
+        self.sx.compare_hook = self._compare
+
+    def _compare(self, sx, opname, a, b, node):
+        """Leaves and contents are values that exist (never None) and compare structurally like sympy objects."""
+        if opname not in ("is", "is not", "==", "!="):
+            return NotImplemented
+
+        def known(x):
+            return (isinstance(x, Obj) and x.name in self.leaves) or \
+                (isinstance(x, T) and (x.op in ("add", "mul", "pow") or self.resolve(x) is not x))
+        if (a is None and known(b)) or (b is None and known(a)):
+            return opname in ("is not", "!=")
+        if known(a) and known(b):
+            return (self.value(a) == self.value(b)) == (opname in ("is", "=="))
+        return NotImplemented
+
+    # ------------------------------------------------------------------ records
+    def reset(self):
+        self.leaves.clear()
+        self.symbols.clear()
+        self.count.clear()
+
+    def alloc(self, cls, args=(), label=None):
+        """A fresh record of the library class ``cls`` (ClassRef or an abstract class record)."""
+        if isinstance(cls, Obj):
+            cref = cls.attrs.get("$class")
+        else:
+            cref = cls
+        if not isinstance(cref, ClassRef):
+            raise AnalysisError(f"SX({self.sx.what}): allocation of an unknown class {cls!r}")
+        ref = f"{cref.module.name}:{cref.qual}"
+        o = Obj(ref, f"<{label or cref.short}#{next(_serial)}>")
+        o.attrs["__class__"] = cref
+        if cref.module.name == "sympy_objects":      # a sympy object: its constructor arguments are its ``args``
+            o.attrs["args"] = tuple(args)
+            self.leaves[o.name] = o
+        return o
+
+    def _alloc_hook(self, sx, a, kw):
+        if a and isinstance(a[0], Obj) and a[0].name == "super":
+            a = a[1:]
+        if not a or kw:
+            return NotImplemented
+        return self.alloc(a[0], a[1:])
+
+    def _super(self, sx, a, kw):
+        o = Obj(None, "super")
+        o.attrs["__new__"] = self._alloc_hook
+        return o
+
+    def _sympify(self, sx, a, kw):
+        if len(a) != 1 or kw:
+            return NotImplemented
+        v = a[0]
+        if isinstance(v, str):
+            if v not in self.symbols:
+                s = Obj(None, f"Symbol({v})")
+                s.attrs.update(name=v, _classes=("Symbol",), is_number=False)
+                self.symbols[v] = s
+            return self.symbols[v]
+        return v
+
+    def instantiate(self, cref, args, kw):
+        """``Class(*args)`` as python does it: ``__new__`` of the library evaluated, then ``__init__`` on the result if
+        it is an instance of the class."""
+        sx = self.sx
+        ref = f"{cref.module.name}:{cref.qual}"
+        self.count[cref.short] = self.count.get(cref.short, 0) + 1
+        new = sx.find_method(ref, "__new__")
+        if new is not None:
+            fn = new[0]
+            clsrec = Obj(ref, cref.short)          # the class object: classmethods called on it are bound to it
+            clsrec.attrs["$class"] = cref
+            r = sx._invoke(Func(fn, [], fn._module, fn._qual), [clsrec] + list(args), dict(kw), None)
+        else:
+            r = self.alloc(cref, args)
+        if isinstance(r, Obj) and r.cls and (r.cls == ref or cref.short in sx._bases(r.cls)):
+            init = sx.find_method(r.cls, "__init__")
+            if init is not None:
+                fn = init[0]
+                sx._invoke(Func(fn, [], fn._module, fn._qual, bound=r), list(args), dict(kw), None)
+        return r
+
+    def construct(self, cls_name, *args, **kw):
+        """The library's own constructor (to be called while an evaluation is running)."""
+        mod = next(m for m in self.MODULES if cls_name in self.model.module(m).classes)
+        return self.instantiate(ClassRef(self.model.module(mod), cls_name), list(args), kw)
+
+    # ------------------------------------------------------------------ python protocol
+    def _len(self, sx, a, kw):
+        if len(a) == 1 and isinstance(a[0], Obj) and a[0].cls:
+            m = sx.find_method(a[0].cls, "__len__")
+            if m is not None:
+                fn = m[0]
+                return sx.call_value(Func(fn, [], fn._module, fn._qual, bound=a[0]), [], {}, None)
+        if len(a) == 1 and isinstance(a[0], T) and a[0].op in ("add", "mul", "pow"):
+            return len(a[0].args)
+        return NotImplemented
+
+    def _type(self, sx, a, kw):
+        if len(a) != 1:
+            return NotImplemented
+        v = self.resolve(a[0])
+        if isinstance(v, Obj) and "__class__" in v.attrs:
+            return v.attrs["__class__"]
+        if isinstance(v, T) and v.op in ("add", "mul", "pow"):
+            return Ext({"add": "Add", "mul": "Mul", "pow": "Pow"}[v.op])
+        if is_num(v):
+            return Ext("Integer")
+        return NotImplemented
+
+    def resolve(self, v):
+        """The record a leaf term stands for."""
+        if isinstance(v, T) and v.op == "sym" and v.args[0] in self.leaves:
+            return self.leaves[v.args[0]]
+        return v
+
+    def _attr(self, sx, obj, attr, node):
+        if isinstance(obj, T):
+            r = self.resolve(obj)
+            if r is not obj:
+                return sx.getattr(r, attr, node)
+            if obj.op in ("add", "mul", "pow"):
+                if attr == "args":
+                    return tuple(self.resolve(x) for x in obj.args)
+                if attr == "is_number":
+                    return False
+                if attr == "func":
+                    return self._type(sx, [obj], {})
+            return NotImplemented
+        if isinstance(obj, Obj) and obj.cls:
+            m = sx.find_method(obj.cls, "__getattr__")
+            if m is not None and attr not in ("__class__",) and not (attr.startswith("__") and attr.endswith("__")):
+                fn = m[0]
+                return sx.call_value(Func(fn, [], fn._module, fn._qual, bound=obj), [attr], {}, node)
+            if attr == "is_number" and obj.name in self.leaves:
+                return False
+        return NotImplemented
+
+    def _isinstance(self, sx, obj, cname):
+        if isinstance(obj, T):
+            r = self.resolve(obj)
+            if r is not obj:
+                return cname == r.cls.split(":")[-1] or cname in sx._bases(r.cls) if r.cls else cname in r.attrs.get("_classes", ())
+            if obj.op in ("add", "mul", "pow"):
+                return cname in {"add": ("Add", "Expr", "Basic"), "mul": ("Mul", "Expr", "Basic"), "pow": ("Pow", "Expr", "Basic")}[obj.op]
+        return False
+
+    # ------------------------------------------------------------------ values
+    def leaf_key(self, r):
+        """Structural identity of a leaf record: class and constructor arguments."""
+        r = self.resolve(r)
+        if not isinstance(r, Obj):
+            return r
+        args = r.attrs.get("args", ())
+
+        def k(x):
+            if isinstance(x, (tuple, list)):
+                return tuple(k(y) for y in x)
+            if isinstance(x, Obj):
+                return ("obj", x.attrs.get("name", x.name) if x.name.startswith("Symbol(") else x.name)
+            return x
+        return T("leaf", r.cls or r.name, k(args))
+
+    def value(self, t):
+        """Canonical structural text of a content (leaves by class and arguments)."""
+        from ..terms import rebuild
+        t = _freeze(t)
+
+        def f(x):
+            if x.op == "sym" and x.args[0] in self.leaves:
+                return self.leaf_key(x)
+            return x
+        if isinstance(t, T):
+            t = rebuild(t, f)
+        return repr(canon(t))
+
+    def show(self, t):
+        return self.value(t)[:600]
+
+    def add(self, *xs):
+        """Sum as sympy builds it: equal summands are collected into one with a numeric coefficient."""
+        t = t_add(*[_freeze(x) for x in xs])
+        if not (isinstance(t, T) and t.op == "add"):
+            return t
+        groups, order, const = {}, [], 0
+        for x in t.args:
+            if is_num(x):
+                const = const + x
+                continue
+            c, rest = 1, x
+            if isinstance(x, T) and x.op == "mul" and is_num(x.args[0]):
+                c, rest = x.args[0], t_mul(*x.args[1:])
+            k = self.value(rest)
+            if k not in groups:
+                groups[k] = [0, rest]
+                order.append(k)
+            groups[k][0] = groups[k][0] + c
+        return t_add(const, *[t_mul(groups[k][0], groups[k][1]) for k in order if groups[k][0] != 0])
+
+    def map_leaves(self, t, fn):
+        """Content with every leaf record r replaced by fn(r) (a content); everything else rebuilt as it is."""
+        t = _freeze(t)
+        if isinstance(t, T):
+            if t.op == "sym":
+                r = self.resolve(t)
+                return _freeze(fn(r)) if r is not t else t
+            if t.op == "add":
+                return self.add(*[self.map_leaves(x, fn) for x in t.args])
+            if t.op == "mul":
+                return t_mul(*[self.map_leaves(x, fn) for x in t.args])
+            if t.op == "pow":
+                return t_pow(self.map_leaves(t.args[0], fn), self.map_leaves(t.args[1], fn))
+        return t
+
+    def run(self, build, call):
+        """One evaluation: ``build()`` creates the model (constructors may be evaluated), ``call(built)`` performs the
+        public calls; both run inside the evaluator.  Returns [(outcome, built)]."""
+        sx = self.sx
+        made = []
+
+        def body():
+            self.reset()
+            b = build()
+            made.append(b)
+            return call(b)
+        outs = sx._explore(lambda: self._enter(body))
+        if len(outs) != len(made):
+            raise AnalysisError(f"SX({sx.what}): {len(made)} evaluations, {len(outs)} outcomes")
+        return list(zip(outs, made))
+
+    def _enter(self, body):
+        sx = self.sx
+        sx.frames, sx.module = [{}], self.model.module(EC)
+        return body()
+
+    def call(self, recv, method, *args, **kw):
+        """``recv.method(*args, **kw)`` evaluated."""
+        return self.sx.call_method(recv, method, list(args), dict(kw), None)
+
+    def get(self, recv, attr):
+        return self.sx.getattr(recv, attr, None)
